@@ -72,8 +72,8 @@ def conditional_attrs(repo, cname):
     g = cfg_of(init)
     assigned = collections.defaultdict(list)
     for n in g.stmt_nodes():
-        if isinstance(n.ast, ast.Assign):
-            for t in n.ast.targets:
+        if isinstance(n.ast, ast.Assign) or (isinstance(n.ast, ast.AnnAssign) and n.ast.value is not None):
+            for t in (n.ast.targets if isinstance(n.ast, ast.Assign) else [n.ast.target]):
                 for tt in ast.walk(t):
                     if isinstance(tt, ast.Attribute) and isinstance(tt.value, ast.Name) and tt.value.id == "self" and isinstance(tt.ctx, ast.Store):
                         keys = set()
